@@ -412,6 +412,40 @@ def r_stateless(c):
     return dict(reproduced=bool(bad), why=bad[:2])
 
 
+@handler("vectors_untouched")
+def r_vectors_untouched(c):
+    """the tensor the user configured the aggregator with must not be modified by a call, and a later call must not depend on an earlier one"""
+    J = np.asarray(arr(c["J"]), dtype=float)
+    v = np.asarray(arr(c["v"]), dtype=float)
+    m = J.shape[0]
+    from torchjd.aggregation import ConFIG, UPGrad, DualProj, AlignedMTL, Constant, GradDrop
+    def build(vt):
+        return dict(config=lambda: ConFIG(pref_vector=vt), upgrad=lambda: UPGrad(pref_vector=vt), dualproj=lambda: DualProj(pref_vector=vt),
+                    alignedmtl=lambda: AlignedMTL(pref_vector=vt), constant=lambda: Constant(vt), graddrop=lambda: GradDrop(leak=vt))[c["agg"]]()
+    bad = []
+    vt = t64(v)
+    keep = vt.clone()
+    A = build(vt)
+    torch.manual_seed(0)
+    try:
+        A(t64(J))
+    except Exception as e:  # noqa
+        return dict(reproduced=False, note=f"the call raises on the real stack: {type(e).__name__}: {e}")
+    if not torch.equal(vt, keep):
+        bad.append(f"the configured vector was modified by the call: {keep.tolist()} -> {vt.tolist()}")
+    rng = np.random.default_rng(0)
+    for trial in range(3):
+        J2 = rng.normal(size=(m, 3))
+        torch.manual_seed(1)
+        oa = A(t64(J2)).numpy()
+        torch.manual_seed(1)
+        ob = build(t64(v))(t64(J2)).numpy()
+        if not close(oa, ob, 1e-9, scale=np.abs(J2).max()):
+            bad.append(f"after the call on {J.tolist()}, A(J2) = {oa.tolist()} but a fresh instance gives {ob.tolist()}")
+            break
+    return dict(reproduced=bool(bad), why=bad[:2])
+
+
 @handler("seeded")
 def r_seeded(c):
     J = t64(np.array([[1.0, -2.0, 0.5], [-1.0, 1.0, 3.0]]))
